@@ -157,9 +157,8 @@ def ref_inc(name, src, params, ret, pre='', callees='', prelude=''):
 
 def tv_inst(iname, fname, src, params, ret, fam, pre='', callees='', prelude='', unwind=40, timeout=600, toksrc=None, depth=None, optional=False, backends=('sat',)):
     toks = parselib.tokens_inc(toksrc or src).replace("assert len", "assert len")
-    return Inst(iname, 'h_tv.c', {}, units=UNITS, overrides=OVERRIDES, native_units=['scan', 'pp'], unwind=unwind, family=fam, timeout=timeout, mem_gb=16, optional=optional, backends=list(backends),
-                unwindset=['mapinit.0:70', 'strlen.0:40', 'strcmp.0:40', 'memcmp.0:70', 'scopeinit.0:16', '__CPROVER_file_local_map_c_hash.0:40',
-                           '__CPROVER_file_local_map_c_keyindex.0:66', 'mapfree.0:66', 'mapput.0:66', 'mapput.1:66', 'il_is_stop.0:14', 'il_run.0:130', 'il_run.1:70', 'il_cfg_has.0:50', 'il_cfg_errors.0:4', 'il_cfg_errors.1:50',
+    return Inst(iname, 'h_tv.c', ({'MAPCAP': parselib.mapcap()} if parselib.mapcap() != 64 else {}), units=UNITS, overrides=OVERRIDES, native_units=['scan', 'pp'], unwind=unwind, family=fam, timeout=timeout, mem_gb=16, optional=optional, backends=list(backends),
+                unwindset=parselib.map_unwindset() + ['strlen.0:40', 'strcmp.0:40', 'memcmp.0:70', 'scopeinit.0:16', '__CPROVER_file_local_map_c_hash.0:40', 'il_is_stop.0:14', 'il_run.0:130', 'il_run.1:70', 'il_cfg_has.0:50', 'il_cfg_errors.0:4', 'il_cfg_errors.1:50',
                            'dupstr.0:40', 'delfunc.0:130', 'delfunc.1:70', 'real_emitfunc.0:12', 'real_emitfunc.1:130', 'real_emitfunc.2:70', 'emitinst.0:10', 'strtoull.0:26', 'strpbrk.0:10', 'strpbrk.1:42', 'strtod.0:26', 'strtod.1:6', 'strtod.2:42'],
                 files={'tokens.inc': toks.replace('static void checks(void) {\n}\n', ''), 'ref.inc': ref_inc(fname, src, params, ret, pre, callees, prelude)},
                 bound={'function': src.strip()[:160], 'inputs': 'symbolic', 'precondition': pre})
